@@ -125,20 +125,30 @@ from .instructionselector import ContextInterface
 
 
 class MiniCtx(ContextInterface):
+    """Context given to patterns when spill code is generated.
+
+    Offers the same attributes as InstructionContext, but collects the
+    instructions instead of appending them to the frame.
+    """
+
     def __init__(self, frame, arch):
-        self._frame = frame
-        self._arch = arch
+        self.frame = frame
+        self.arch = arch
         self.instructions = []
 
     def move(self, dst, src):
         """Generate move"""
-        self.emit(self._arch.move(dst, src))
+        self.emit(self.arch.move(dst, src))
 
     def emit(self, instruction):
         self.instructions.append(instruction)
+        return instruction
 
     def new_reg(self, cls):
-        return self._frame.new_reg(cls)
+        return self.frame.new_reg(cls)
+
+    def new_label(self):
+        return self.frame.new_label()
 
 
 class MiniGen:
